@@ -459,3 +459,38 @@ for _pid, _rule in (("C03", "NARROW-ALGO"), ("C04", "NARROW-ALGO"), ("C05", "NAR
                     ("C16", "NARROW-REPR"), ("C20", "NARROW-REPR")):
     PROPERTY_RULES[_pid]["rules"] = PROPERTY_RULES[_pid]["rules"] + [_rule]
     PROPERTY_RULES[_pid]["explanation"] += _NARROW_TEXT
+
+# clause texts added after rounds 6 and 7 / campaigns R19-R26 (appended so that the generated tables stay in step)
+_ADDENDA = {
+    "BITS": " Every shift by a non-constant amount in the bit matrix has an amount provably below the word width (shift-amount); "
+            "the words of a matrix built as a literal are all zero (then written bit by bit), a copy, or a word-wise |, &, ^ of the "
+            "words of two matrices (literal-words).",
+    "BITSET": " Bit sets may address with x / 2^k and x % 2^k as well; every non-constant shift amount outside the bit matrix is "
+              "provably below the word width. When next() does not match a schema's shape the schema verdict stays UNDECIDED, but "
+              "a bulk edit (drain, retain, truncate, clear, sort, ..) of a container field of the traversal inside next() is "
+              "still a violation (worklist-edited).",
+}
+_PROP_ADDENDA = {
+    "C02": " has_walk reaches its pairwise test only for sequences of at least two vertices (walk-min-length).",
+    "C05": " shortest_path applies the target predicate to vertices in the order the traversal yields them; a scan over "
+           "positions, a range or vertices() is a violation (P3-target-in-yield-order).",
+    "C08": " The diagonal loop and the three loops of the triple loop range over vertices() or 0..order (F4-diagonal-domain, "
+           "F1-all-vertices).",
+    "C11": " complement / converse / union / filter_vertices never write in bulk (extend, append) into a field of a local "
+           "representation value, bypassing add_arc (OPS-WRITES).",
+    "C12": " IDSRC covers the blanket impls of graaf::op and every predicate of the property; is_spanning_subdigraph does not "
+           "compare the two vertex sequences through zip() (spanning-vertex-sets-equal).",
+    "C14": " A per-worker scratch container is not carried from one row to the next (shrinking edits count; a remove that is "
+           "followed on every path by the insert of the same key is balanced).",
+    "C15": " next_f64 may also be (integer expression of the draw) as f64 * C, evaluated at its largest value in IEEE double "
+           "arithmetic (u64::MAX as f64 is 2^64).",
+    "C17": " A per-worker scratch container is not carried from one row to the next; a result row is written only after row u of "
+           "each operand was read or is known not to exist (rows-merged); row chunks zipped with per-worker state have one "
+           "item per chunk on the other side (zip-covers-chunks).",
+}
+for _pid, _d in PROPERTY_RULES.items():
+    for _r, _txt in _ADDENDA.items():
+        if _r in _d["rules"]:
+            _d["explanation"] += _txt
+    if _pid in _PROP_ADDENDA:
+        _d["explanation"] += _PROP_ADDENDA[_pid]
